@@ -48,11 +48,12 @@ pub enum Case {
 
 pub struct C18;
 
-const DTS: [u64; 10] = [15, 1, 60, 900, 901, 3600, 7, 86400, 450, 300];
+/// block spacing in seconds; 0 = a new block within the same second (sub-second block times)
+const DTS: [u64; 11] = [15, 1, 60, 900, 901, 3600, 7, 86400, 450, 300, 0];
 
 fn block_strategy() -> impl Strategy<Value = Block> {
     (
-        0u8..10,
+        0u8..11,
         proptest::collection::vec(swap_strategy(), 0..=4),
         proptest::collection::vec(any::<u16>(), 1..=4),
     )
